@@ -2,6 +2,7 @@ CONSTANTS Streams <- Small
   LenOf <- Lens
   ReadMax = 1
   MaxReads = 0
+  Fails <- NoFail
   Cuts <- NoCuts
   D = 0
 INIT Init
